@@ -71,6 +71,9 @@ func runAll(ctx *Ctx, sel func(*FuncContract) bool, secs int, thorough bool, job
 	}
 	var all []*OblResult
 	for _, fr := range frs {
+		if fr.VC != nil {
+			fr.VC.declsCache = fr.VC.tt.Decls()
+		}
 		for _, o := range fr.Obls {
 			all = append(all, &OblResult{Obl: o, Func: fr})
 		}
